@@ -57,6 +57,7 @@ out.append('(* about "the unit table"; this module is the reference copy the cod
 out.append('(* compared with.  A row is [name, unit, n, d, e]: the suffix (upper case byte *)')
 out.append('(* sequence), the base unit tag, and the multiplier as the exact rational       *)')
 out.append('(* n/d * 10^e.  A special is [pat, tag]: pattern with upper-case short form.    *)')
+out.append('EXTENDS Integers')
 out.append('UnitRows == <<')
 for i, (nm, u, n, d, e) in enumerate(rows):
     es = str(e) if e >= 0 else '0 - %d' % -e
